@@ -518,12 +518,13 @@ type collector struct {
 	ufs   map[string]bool
 	slens map[string]*T // argument terms of slen
 	sats  map[string]*T // whole (sat s i) terms
+	eqlits map[string]*T
 	seen  map[*T]bool
 	bound map[string]bool
 }
 
 func newCollector() *collector {
-	return &collector{syms: map[string]Sort{}, ufs: map[string]bool{}, slens: map[string]*T{}, sats: map[string]*T{}, seen: map[*T]bool{}, bound: map[string]bool{}}
+	return &collector{syms: map[string]Sort{}, ufs: map[string]bool{}, slens: map[string]*T{}, sats: map[string]*T{}, eqlits: map[string]*T{}, seen: map[*T]bool{}, bound: map[string]bool{}}
 }
 
 func (c *collector) walk(t *T) {
@@ -550,6 +551,9 @@ func (c *collector) walk(t *T) {
 		}
 		if t.Name == "slen" && !hasBound(t.Args[0], c.bound) {
 			c.slens[t.Args[0].String()] = t.Args[0]
+		}
+		if t.Name == "f!eqlit" && !hasBound(t, c.bound) {
+			c.eqlits[t.String()] = t
 		}
 		if t.Name == "sat" && !hasBound(t, c.bound) {
 			c.sats[t.String()] = t
